@@ -352,7 +352,7 @@ pub fn run(env: &mut Env) {
             days_window(env, lo, hi);
         }
         triples_years(env, std::sync::Arc::new(boundary_years()));
-        env.run_random::<Days>(400_000);
-        env.run_random::<Triples>(600_000);
+        env.run_random::<Days>(1_000_000);
+        env.run_random::<Triples>(1_500_000);
     }
 }
